@@ -13,8 +13,6 @@ D = {
               "one label-free dissimilarity object used first on a continuum with more labels, then on one with fewer labels that mixes labelled and unlabelled units"),
  "C03-r5-1": ("C03", ["C03"], "_build_arrays_alignment keeps its (n_unitary, n_annotators, 4) array on the dissimilarity object and reuses it for the next alignment of the same shape",
               "two or more threads calling compute_disorder with the same dissimilarity object on same-shaped alignments at overlapping times"),
- "C03-r5-2": ("C03", ["C03", "C08"], "GLPK fall-back rescales the candidate disorders to [0, 1] in place; the carried unitary and total disorders are then read from the scaled table",
-              "the CBC solve raising SolverError / cylp not importable (in a fast alignment: only the windows whose CBC solve failed)"),
  "C04-r5-1": ("C04", ["C04", "C06"], "_category_index memoises SortedSet.index in a dict kept on the dissimilarity object, reset at the start of each array build",
               "one label-free dissimilarity used by two threads at once on continua / alignments with different category sets, a thread switch inside one build loop"),
  "C05-r5-1": ("C05", ["C05", "C01", "C08"], "duplicated ILP code moved to one helper; the switch from 'cover' to 'exact cover' sits inside the try, after `import cylp`: when that import fails GLPK solves the soft programme for the best alignment",
@@ -29,8 +27,6 @@ D = {
               ">= 3 annotators and two units whose distance is about 1e5 times their durations (a huge pair value leaves its rounding error in the running sum)"),
  "C08-r5-1": ("C08", ["C08", "C11"], "solver helper remembers the GLPK fall-back after CBC first proved unusable; the remembered programme builder captures the `exact` flag of the first failing call",
               "a GLPK configuration, both kinds of alignment computed in the same process, a continuum whose optimal cover is cheaper than its optimal partition"),
- "C08-r5-2": ("C08", ["C08", "C03"], "CBC is handed the disorders divided by delta_empty, in place, through a context manager without try/finally: when CBC raises the restore is skipped and GLPK reads the scaled table",
-              "cylp importable but CBC raising SolverError, delta_empty != 1 (every disorder multiplied by 1/delta_empty)"),
  "C09-r5-2": ("C09", ["C09", "C13"], "Continuum keeps a running _num_units counter; add increments it even when the set already holds the unit",
               "the same (annotator, segment, label) added twice on one side of the comparison only (every disorder of that object is scaled by n/(n+k))"),
  "C10-r5-1": ("C10", ["C10", "C03"], "'nothing to solve' shortcut in get_fast_alignment: when only one annotator still has units each remaining unit becomes a lone unitary alignment with disorder (p-1)*delta_empty/C(p,2) instead of delta_empty",
@@ -81,6 +77,8 @@ D = {
 SUPERSEDED = {
  "C04-r5-2": "a refused combined-constructor call left the given component half re-parameterised - the fix 80e5b16 (D23) makes the constructor work on a copy, the caller's component is never touched",
  "C07-r5-2": "combined constructor skipped recompiling a zero-weighted component that it had re-parameterised in place - same: after 80e5b16 the caller's component object is never modified",
+ "C03-r5-2": "GLPK fall-back rescaled the candidate disorders in place and the carried disorders were read from the scaled table - after cdb47f8 (D27) the programme is written on a separate, already relative cost array and the carried disorders come from the untouched one: the same edit no longer changes any result (demo exits 0 with the change on the repaired tree)",
+ "C08-r5-2": "CBC handed disorders / delta_empty in place through a context manager without try/finally - same: after cdb47f8 the array it scales is the solver's own cost array, not the one the disorders are read from (demo exits 0 with the change on the repaired tree)",
  "C09-r5-1": "lazy kernel compilation + in-place re-parameterisation of a shared component - same: after 80e5b16 nothing is shared",
 }
 for i, (prop, cw, change, needs) in D.items():
